@@ -150,12 +150,14 @@ type Spec struct {
 	// hedge
 	MaxHedges int
 	HDelay    time.Duration
+	HDelays   []time.Duration // non-nil: a delay function; hedge k of an execution is started HDelays[k-1] after the previous attempt (last value repeated)
 	Cancel    []Cond
 
 	// fallback
 	FbV    int
 	FbE    error
-	FbEcho bool // the fallback's output is derived from the failure it handles: (that result + 100, FbE)
+	FbDur  time.Duration // the fallback function takes this long (it ignores cancellation) and reports what it sees again when it returns
+	FbEcho bool          // the fallback's output is derived from the failure it handles: (that result + 100, FbE)
 
 	// cache
 	Key     string
@@ -211,6 +213,9 @@ func (s Spec) String() string {
 		return fmt.Sprintf("timeout(%v)", s.Limit)
 	case KHedge:
 		x := fmt.Sprintf("hedge(max=%d,delay=%v", s.MaxHedges, s.HDelay)
+		if s.HDelays != nil {
+			x = fmt.Sprintf("hedge(max=%d,delayFunc=%v", s.MaxHedges, s.HDelays)
+		}
 		if len(s.Cancel) > 0 {
 			x += ",cancel=" + condStr(s.Cancel)
 		}
@@ -690,6 +695,12 @@ func (env *Env) build(i int, s Spec) failsafe.Policy[int] {
 		return timeout.Builder[int](s.Limit).OnTimeoutExceeded(env.doneEv(i, "timeout")).Build()
 	case KHedge:
 		b := hedgepolicy.BuilderWithDelay[int](s.HDelay).WithMaxHedges(s.MaxHedges)
+		if s.HDelays != nil {
+			ds := s.HDelays
+			b = hedgepolicy.BuilderWithDelayFunc[int](func(e failsafe.ExecutionAttempt[int]) time.Duration {
+				return ds[min(e.Hedges(), len(ds)-1)]
+			}).WithMaxHedges(s.MaxHedges)
+		}
 		for _, c := range s.Cancel {
 			switch c.K {
 			case "errs":
@@ -712,6 +723,11 @@ func (env *Env) build(i int, s Spec) failsafe.Policy[int] {
 			s0 := env.seqNow()
 			env.ev(Event{Seq0: s0, Policy: i, Name: "fbcall", HasStats: true, Attempts: e.Attempts(), Executions: e.Executions(), Retries: e.Retries(), Hedges: e.Hedges(),
 				LastV: e.LastResult(), LastE: e.LastError()})
+			if s.FbDur > 0 {
+				vrt.Sleep(int64(s.FbDur))
+				env.obs()
+				env.ev(Event{Seq0: env.seqNow(), Policy: i, Name: "fbexit", LastV: e.LastResult(), LastE: e.LastError()})
+			}
 			if s.FbEcho {
 				return e.LastResult() + 100, s.FbE
 			}
@@ -904,4 +920,17 @@ func fbOutput(s Spec, v int) (int, error) {
 		return v + 100, s.FbE
 	}
 	return s.FbV, s.FbE
+}
+
+// hedgeOffset is the earliest instant, relative to the start of a hedge application, at which its k-th
+// hedge (k >= 1) may start.
+func hedgeOffset(s Spec, k int) int64 {
+	if s.HDelays == nil {
+		return int64(k) * int64(s.HDelay)
+	}
+	var t int64
+	for i := 0; i < k; i++ {
+		t += int64(s.HDelays[min(i, len(s.HDelays)-1)])
+	}
+	return t
 }
